@@ -734,6 +734,8 @@ def _decode(img, want_content, max_nodes):
 def check_padding(img, devblk):
     if img.ok() and img.file_size % devblk:
         img.invalid.append("file size %d not a multiple of device block size %d" % (img.file_size, devblk))
+    if img.ok() and getattr(img, "sb", None) and img.file_size - img.sb["bytes_used"] >= devblk:
+        img.invalid.append("file size %d is a device block (%d) or more beyond bytes_used %d" % (img.file_size, devblk, img.sb["bytes_used"]))
 
 
 def tree_summary(img):
